@@ -1359,6 +1359,16 @@ func concClient(im *impl, s int, seed uint64, nops int, fails chan<- [2]string) 
 				}
 				sess.Clunk(ctx, tmp)
 			}
+			// reach for a file another client may be creating or removing right now
+			// (walk racing remove): only "no crash" and the final counts are judged
+			other := fmt.Sprintf("c%d_%d", (s+1)%len(im.sess), rng.Intn(4))
+			if qs, err := sess.Walk(ctx, root, tmp, d, other); err == nil && len(qs) == 2 {
+				sess.Stat(ctx, tmp)
+				if _, _, err := sess.Open(ctx, tmp, p9p.OREAD); err == nil {
+					sess.Read(ctx, tmp, make([]byte, 16), 0)
+				}
+				sess.Clunk(ctx, tmp)
+			}
 		}
 	}
 	sess.Clunk(ctx, root)
